@@ -713,3 +713,12 @@ except Exception as e:
                     else:
                         u.oblige(p, name, zb(t) == z3.Bool("cubes_equal"), {}, rp)
                 u.cover(f"cover[photon_eq:{pre_a},{pre_b},{same_shape}]", ps, lambda p: True)
+
+
+def _detector_ctors(u: Unit):
+    """C18.detector_ctors (imported late)"""
+    from . import C18 as _C18
+    return _C18.detector_ctors(u)
+
+
+unit("C13", "ctor.detectors")(_detector_ctors)      # a new detector holds one empty container of each kind on its own geometry
